@@ -132,6 +132,8 @@ pub fn scenario(rng: &mut Rng, tier: Tier) -> Scenario {
             subjects.push(rng.pick(&gen::ERROR_SUBJECTS).to_string());
         } else if rng.chance(1, 40) {
             subjects.push(rng.pick(&gen::DEGENERATE_SUBJECTS).to_string());
+        } else if rng.chance(1, 60) {
+            subjects.push(gen::report_expression(rng));
         } else {
             let cfg = subject_cfg(rng, tier);
             subjects.push(gen::expression(rng, &cfg));
